@@ -11,14 +11,14 @@
 """
 import concurrent.futures, os, sys
 sys.path.insert(0, os.path.join(os.path.dirname(os.path.abspath(__file__)), "..", "tools"))
-import vlib, runner, mapgen, seqgen, edgecover
+import vlib, runner, viewgen, mapgen, seqgen, edgecover
 
 PID = "C12"
 SEQ_BAD = seqgen.BAD_INDEX + ["pop_empty", "get_nullkey", "get_alienkey", "set_alienkey", "popat_alienkey",
                               "rem_null", "mem_null", "concat_null", "concat_int"]
 # withheld (open finding F-C12-assign-source): "assign_int" - assign from a source that is not a container
 SEQ_BAD_OWNING = ["set_null", "set_alien"]            # element assignment that must fail (Array / List)
-PUSH_BAD = ["push_null", "push_alien", "pushat_null", "pushat_alien", "concat_alien"]   # the element's own assign raises
+PUSH_BAD = ["push_null", "push_alien", "pushat_null", "pushat_alien", "concat_alien", "new_alien"]   # the element's own assign raises
 MAP_BAD = ["settype", "setval", "setnullk", "setnullv", "getnull", "remnull", "memnull", "gettype", "remtype", "memtype"]
 
 
@@ -39,10 +39,13 @@ def main(tier, replay=None):
         lib = f_lib.result()
         hmap = vlib.build_harness_wb(lib, ["h_map.c"], os.path.join(wd, "h_map"), ("Tree.c",), chk.notes)
         hseq = vlib.build_harness(lib, ["h_seq.c"], os.path.join(wd, "h_seq"))
+        hview = vlib.build_harness(lib, ["h_view.c"], os.path.join(wd, "h_view"))
         r_seq = {k: f.result() for k, f in f_seq.items()}
     chk.lap("built + TLC")
     if replay:
         first = open(replay).readline().split()
+        if any(l.startswith("view ") for l in open(replay)):
+            return runner.replay_file(chk, hview, replay, "ViewTrace", "ViewTrace.cfg", ())
         if len(first) == 3:
             return runner.replay_file(chk, hmap, replay, "MapTrace", "MapTrace_fail.cfg", ("types", "K", "W", "hashmul"))
         return runner.replay_file(chk, hseq, replay, "SeqTrace", "SeqTrace_fail.cfg", ("types", "K"))
@@ -100,7 +103,14 @@ def main(tier, replay=None):
                        "TLC in Mode fail; distinct = different operation sequence / kind / element type")
     chk.assumptions += ["default (checked) build", "String, File and allocation-class failures are exercised by C16, C20 and C19"]
 
+    # positions outside Ranges, Slices, Zips and Maps (one past either end, further, far out): refused with
+    # IndexOutOfBoundsError - ViewTrace judges the oob observations of every view
+    cv = runner.Campaign(chk, hview, "ViewTrace", "ViewTrace.cfg")
+    views = viewgen.range_grid([-3, 0, 2, 5]) + viewgen.slice_grid([0, 1, 4], ["u", "-2", "1", "3"]) + \
+        [viewgen.top(rng, rng.choice([1, 2, 3])) for _ in range(300 if quick else 3000)]
+    cv.run([], [["reset"] + ["view " + v for v in views[i:i + 60]] for i in range(0, len(views), 60)], "views", sample=False)
     cs.report()
     cm.report()
+    cv.report()
     runner.run_pinned(chk, {"h_seq": hseq, "h_map": hmap})
     return chk.finish()
